@@ -1,4 +1,5 @@
 import TangeloModel.Symmetry
+import TangeloModel.Defaults
 import TangeloProofs.Props.C05
 import Mathlib.Algebra.Order.Ring.Rat
 import Mathlib.Tactic.Positivity
@@ -244,5 +245,22 @@ theorem penalty_zero_iff (μ a t : Rat) (hμ : 0 < μ) : μ * ((a - t) * (a - t)
 /-! ## non-vacuity -/
 example : numberList 2 true = [(0, 1), (2, 1), (1, 1), (3, 1)] := by decide +kernel
 example : spinzList 2 false = [(0, 1/2), (1, -1/2), (2, 1/2), (3, -1/2)] := by decide +kernel
+
+end Tangelo.C12
+
+/-! ## option dictionaries: per-call defaults vs one shared dictionary -/
+namespace Tangelo.C12
+open Tangelo.Defaults
+
+/-- **per-call defaults are history independent**: whatever calls came before, the effective options of a call are
+    the defaults updated with the options of that call -/
+theorem fresh_history_independent {V : Type} (defaults : Dict V) (history : List (Dict V)) (opts : Dict V) :
+    afterHistoryFresh defaults history opts = update defaults opts := rfl
+
+/-- **a shared default dictionary is not**: after a call that set N, a call that sets only Sz still carries N
+    (the defect class of the seeded changes C12-m4, C12-m5, C08-m5) -/
+theorem shared_counterexample :
+    afterHistoryShared [("N", (0, 0)), ("Sz", (0, 0)), ("S^2", (0, 0))] [[("N", (3, 2))]] [("Sz", (2, 0))]
+      ≠ update [("N", ((0 : Nat), (0 : Nat))), ("Sz", (0, 0)), ("S^2", (0, 0))] [("Sz", (2, 0))] := by decide
 
 end Tangelo.C12
